@@ -81,13 +81,13 @@ snapprop("C08", "proof", "Texel.Properties.C08",
     "Trusted: Lean kernel; the per-level structure of the model is tied to the code's per-level maps by the snap correspondence; on extents that do not divide evenly (float seam) depth independence does not hold exactly and is not claimed.")
 
 snapprop("C05", "proof", "Texel.Properties.C05",
-    ["Texel.C05.C05_no_empty_list", "Texel.C05.C05_no_keep_no_appended", "Texel.C05.C05_keep_extends", "Texel.C05.C05_shape", "Texel.C05.C05_at_least_three"],
+    ["Texel.C05.C05_no_empty_list", "Texel.C05.C05_no_keep_no_appended", "Texel.C05.C05_keep_extends", "Texel.C05.C05_shape", "Texel.C05.C05_at_least_three", "Texel.C05.C05_no_vertex_twice_partial", "Texel.C05.nodup_no_closing_duplicate"],
     ["snap", FUNC],
     "Lean 4 theorems on the functional model (absent rather than empty; shell first, then holes, each of at least three vertices and correctly oriented, opposite under the reverse flag; keep-points-and-lines only appends single rings of at most two vertices) + exact ring-structure oracle on every implementation answer",
     "Theorems for all polygons (valid or not): a collapsed tile matrix is absent, never an empty list; with keep-points-and-lines every tile matrix present without it carries the same polygons followed by single-ring polygons. "
     "Every assembled polygon is its shell followed by its holes, all of at least three vertices, shell counter-clockwise (signed area >= 0) and holes clockwise, exactly the opposite under the reverse flag; collapsed parts are single rings of at most two vertices, none without the option "
-    "(C05_shape, C05_at_least_three, through the functional cleanupNewRing/splitRing/dedupe/match and the proved area2 reversal). The other ring-level clauses (no closing duplicate, no equal neighbours, no vertex twice) are decided by the oracle on every implementation answer, valid and arbitrary polygons, synthetic and real grids (the F4 repair lives there), each case with and without keep.",
-    "Trusted: Lean kernel; the functional forms cleanupNewRingF/dedupeF/matchF are compared with the transcribed do-notation reference on every snap/split operation (streams split, model-functional-vs-reference); no-vertex-twice and no-closing-duplicate are validated by oracle + correspondence, not proved.")
+    "(C05_shape, C05_at_least_three, through the functional cleanupNewRing/splitRing/dedupe/match and the proved area2 reversal). No ring of an assembled polygon visits a vertex twice (hence no closing duplicate, no equal neighbours): C05_no_vertex_twice_partial, proved from the stack invariant of splitRing and the exactness of the repeated-vertex flags under ONE explicit hypothesis, KmpNoDup (kmpDeduplicate returns no more copies of a vertex than it was given), which the kmp stream checks on the real code for every generated ring. These clauses are also decided by the oracle on every implementation answer, valid and arbitrary polygons, synthetic and real grids (the F4 repair lives there), each case with and without keep.",
+    "Trusted: Lean kernel; the functional forms cleanupNewRingF/dedupeF/matchF are compared with the transcribed do-notation reference on every snap/split operation (streams split, model-functional-vs-reference); the hypothesis KmpNoDup of C05_no_vertex_twice_partial is validated on the real kmpDeduplicate (stream kmp), not proved.")
 
 snapprop("C07", "proof", "Texel.Properties.C07",
     ["Texel.C07.levelAcc_indep", "Texel.C07.C07_flag", "Texel.C07.reversePolys_involutive", "Texel.C07.C07_flag_presence", "Texel.C07.C07_ring_direction"],
@@ -106,13 +106,14 @@ snapprop("C03", "proof", "Texel.Properties.C03",
     "Trusted: Lean kernel; float conversion (ToGeomOrd) and tms20's float extent are outside the model; the cellSize constants in the JSON documents are rounded (checked to 1e-6 relative).")
 
 snapprop("C06", "other", "Texel.Properties.C06",
-    ["Texel.C06.C06_no_points_found_unreachable", "Texel.C06.C06_keys_encodable", "Texel.C06.C06_index_total"],
+    ["Texel.C06.C06_no_points_found_unreachable", "Texel.C06.C06_keys_encodable", "Texel.C06.C06_index_total", "Texel.C06.C06_ring_cleanup_total_partial"],
     ["snap", "kmp", "split", FUNC],
-    "Lean 4 theorems for the panic sites that are closed (no-points-found, MustToZ up to level 32, index construction) + recover/watchdog exploration with adversarial sequences, function-level kmp/split correspondence",
-    "Partial proof + exploration: three panic sites are proved unreachable for every in-grid polygon; that kmpDeduplicate/splitRing never reach their index, slice and stack panics and always terminate is NOT proved "
+    "Lean 4 theorems for the panic sites that are closed (no-points-found, MustToZ up to level 32, index construction, every panic of splitRing) + recover/watchdog exploration with adversarial sequences, function-level kmp/split correspondence",
+    "Partial proof + exploration: the no-points-found panic, MustToZ up to level 32, the index construction and every panic of splitRing (stack index out of range, nil Newest, partial rings remaining) are proved unreachable for every in-grid polygon "
+    "(C06_ring_cleanup_total_partial: whatever the ring clean-up raises is raised by kmpDeduplicate; under the hypothesis KmpNoDup, checked on the real code by the kmp stream); that kmpDeduplicate never reaches its index and slice panics and always terminates, and that dedupeInnersOuters raises nothing, is NOT proved "
     "(the model carries them as Except errors and fuel) and is explored: arbitrary and adversarially repetitive sequences under recover and a 20 s watchdog, exhaustive small alphabets in the thorough tier. Known finding F7 (panic above level 32).",
     "Assumes nothing beyond the trusted base; a panic or hang found on any generated input is reported with the input.",
-    extra_trusted=["totality of kmpDeduplicate and splitRing is explored, not proved"])
+    extra_trusted=["totality of kmpDeduplicate (and the hypothesis KmpNoDup about it) is explored, not proved"])
 
 snapprop("C01", "other", "Texel.Properties.C01",
     ["Texel.C01.properCross_symm", "Texel.C01.orient_swap", "Texel.C01.properCross_shared_endpoint", "Texel.C01.C01_ingredient_routing", "Texel.C01.C01_ingredient_shrink"],
